@@ -105,6 +105,27 @@ def rej_header(base, read, lib, reason):
     return [0, first[1:]]
 
 
+def read_outputs(d, skip=('in_', 'prior_')):
+    outs = {}
+    for fn in sorted(os.listdir(d)):
+        if fn.startswith(skip) or not fn.endswith('.gz'):
+            continue
+        with gzip.open(os.path.join(d, fn), 'rb') as h:
+            outs[fn] = h.read().decode('utf-8')
+    return outs
+
+
+def write_inputs(d, prefix, files, eol):
+    paths = []
+    for k, f in enumerate(files):
+        p = os.path.join(d, '%sR%d.fastq.gz' % (prefix, k + 1))
+        data = eol.join(f['lines']) + (eol if f['lines'] and f['final_eol'] else '')
+        with gzip.open(p, 'wb') as h:
+            h.write(data.encode('utf-8'))
+        paths.append(p)
+    return paths
+
+
 def run_case(n, c):
     st = setup()
     from singlecellmultiomics.fastqProcessing.fastqHandle import FastqHandle
@@ -132,6 +153,21 @@ def run_case(n, c):
         strategies = dmx.getSelectedStrategiesFromStringList(c['use'], verbose=False)
         res['order'] = [s.shortName for s in strategies]
         nh = 2 if c['pe_handle'] else 1
+        if c.get('prior_files'):
+            # run history: an EARLIER demultiplexing run (own handles, closed) into the same directory and prefix
+            ppaths = write_inputs(d, 'prior_', c['prior_files'], c['eol'])
+            t0 = FastqHandle(os.path.join(d, 'demultiplexed'), c['pe_handle'], single_cell=c['sc'],
+                             maxHandles=c.get('max_handles', 500))
+            r0 = FastqHandle(os.path.join(d, 'rejects'), c['pe_handle']) if c['rejects'] else None
+            try:
+                dmx.demultiplex(ppaths, strategies=strategies, targetFile=t0, rejectHandle=r0, log_handle=None,
+                                library=c['lib'], maxReadPairs=None)
+            except Exception:
+                pass
+            t0.close()
+            if r0 is not None:
+                r0.close()
+            res['prior_out_files'] = read_outputs(d)
         target = FastqHandle(os.path.join(d, 'demultiplexed'), c['pe_handle'], single_cell=c['sc'],
                              maxHandles=c.get('max_handles', 500))   # demux.py -fh, default 500
         rej = FastqHandle(os.path.join(d, 'rejects'), c['pe_handle']) if c['rejects'] else None
@@ -154,12 +190,7 @@ def run_case(n, c):
                     a, b = line.rsplit('\t', 1)
                     ly[a] = int(b)
         res['log'] = {'processed': int(m.group(1)) if m else None, 'yields': ly}
-        outs = {}
-        for fn in sorted(os.listdir(d)):
-            if fn.startswith('in_'):
-                continue
-            with gzip.open(os.path.join(d, fn), 'rb') as h:
-                outs[fn] = h.read().decode('utf-8')
+        outs = read_outputs(d)
         res['out_files'] = outs
         if c.get('spec_only'):
             return res
@@ -195,18 +226,33 @@ def run_main_case(n, c):
     indir, outdir = os.path.join(d, 'in'), os.path.join(d, 'out')
     os.makedirs(indir)
     nm = len(c['files'])
+    # pieces: (lane, chunk, number of pairs) in the order the driver must process them (sorted file names)
+    pieces = c.get('pieces') or [[li + 1, 1, size] for li, size in enumerate(c['lane_sizes'])]
     lanes, off = [], 0
-    for li, size in enumerate(c['lane_sizes']):
+    for lane, chunk, size in pieces:
         paths = []
         for k in range(nm):
-            p = os.path.join(indir, 'LIBA_S1_L%03d_R%d_001.fastq.gz' % (li + 1, k + 1))
+            p = os.path.join(indir, 'LIBA_S1_L%03d_R%d_%03d.fastq.gz' % (lane, k + 1, chunk))
             lines = c['files'][k]['lines'][4 * off:4 * (off + size)]
             with gzip.open(p, 'wb') as h:
                 h.write((c['eol'].join(lines) + (c['eol'] if lines else '')).encode('utf-8'))
             paths.append(p)
         lanes.append(paths)
         off += size
-    argv = ['demux.py'] + [p for paths in lanes for p in paths] + ['-use', ','.join(c['use']), '--y', '-o', outdir]
+    inputs = [p for paths in lanes for p in paths]
+    if c.get('list_seed') is not None:
+        # a single list-of-files argument; its lines in arbitrary order (R2 before R1, later chunks first)
+        import random
+        shuffled = list(inputs)
+        random.Random(c['list_seed']).shuffle(shuffled)
+        if shuffled == sorted(shuffled) and len(shuffled) > 1:
+            shuffled.reverse()
+        listfile = os.path.join(d, 'LIBA_files.txt')
+        with open(listfile, 'w') as h:
+            h.write('\n'.join(shuffled) + '\n')
+        inputs = [listfile]
+    tail = ['-use', ','.join(c['use']), '--y', '-o', outdir]
+    argv = ['demux.py'] + inputs + tail
     if c['maxp'] is not None:
         argv += ['-n', str(c['maxp'])]
     if not c['rejects']:
@@ -222,6 +268,24 @@ def run_main_case(n, c):
     sys.stdout, sys.argv = devnull, argv
     os.chdir(d)
     try:
+        if c.get('prior_files'):
+            # run history: an earlier run of the driver on another library of the same name into the same -o directory
+            pdir = os.path.join(d, 'in_prior')
+            os.makedirs(pdir)
+            ppaths = []
+            for k, f in enumerate(c['prior_files']):
+                p = os.path.join(pdir, 'LIBA_S1_L001_R%d_001.fastq.gz' % (k + 1))
+                with gzip.open(p, 'wb') as h:
+                    h.write((c['eol'].join(f['lines']) + (c['eol'] if f['lines'] else '')).encode('utf-8'))
+                ppaths.append(p)
+            sys.argv = ['demux.py'] + ppaths + [a for a in argv[1 + len(inputs):] if a != '-n' and not a.isdigit()]
+            try:
+                runpy.run_path(script, run_name='__main__')
+            except BaseException:
+                pass
+            sys.argv = argv
+            if os.path.isdir(os.path.join(outdir, 'LIBA')):
+                res['prior_out_files'] = read_outputs(os.path.join(outdir, 'LIBA'), skip=('\0',))
         crash = None
         try:
             runpy.run_path(script, run_name='__main__')
